@@ -109,7 +109,9 @@ func checkC14(c *Check) {
 		if !ok || namedName(ta.AssertedType) != "ResponseWriter" {
 			return false
 		}
-		return vCall("(reflect.Value).Interface", vCall("(inject.TypeMapper).Value", ctxP, vCall("inject.InterfaceOf")))(ta.X)
+		// inject.InterfaceOf((*T)(nil)) is reflect.TypeOf((*T)(nil)).Elem() for an interface T
+		typ := vOr(vCall("inject.InterfaceOf"), vCall("(reflect.Type).Elem", vCall("reflect.TypeOf")))
+		return vCall("(reflect.Value).Interface", vCall("(inject.TypeMapper).Value", ctxP, typ))(ta.X)
 	}
 	var whs, wrs []ssa.CallInstruction
 	okW := true
